@@ -57,7 +57,8 @@ Definition run_spec_lazy (pages : chunk) (ops : list lop) : list out :=
   run (spec_step_lazy pages) (0, false) ops.
 
 (** Batch reader: ReadRows(n) returns the next min(n, remaining) rows and
-    reports the end when fewer than n rows were left; Reset returns to row 0.
+    reports the end (io.EOF together with the rows) when it reached it, i.e.
+    when n > 0 and at most n rows were left; Reset returns to row 0.
     [strict = true]: a seek is rejected as by [spec_step] on a chunk without
     pages. *)
 Definition rspec_step (strict : bool) (pages : chunk) (pos : nat) (o : rop) : nat * rout :=
@@ -70,7 +71,7 @@ Definition rspec_step (strict : bool) (pages : chunk) (pos : nat) (o : rop) : na
   | RRead n =>
       let left := total_rows pages - pos in
       let cnt := Nat.min n left in
-      (pos + cnt, RRows (seq pos cnt) (left <? n))
+      (pos + cnt, RRows (seq pos cnt) ((0 <? n) && (left <=? n)))
   | RReset => (0, RDone)
   end.
 
